@@ -126,15 +126,31 @@ def eval_formula(n, var_id, b):
     raise ValueError("formula node " + str(k))
 
 
+def _range_bounds(r):
+    """(lo term, hi-exclusive term) of a range term; hi as ('bin','+',x,1) for inclusive ranges"""
+    if r[0] == "call" and r[1].endswith("RangeInclusive::<Idx>::new") and len(r[2]) == 2:
+        return r[2][0], ("incl", r[2][1])
+    if r[0] == "struct":
+        f = dict(r[2])
+        name = r[1].split("::")[-1]
+        if name == "Range":
+            return f.get("start"), ("excl", f.get("end"))
+        if name == "RangeTo":
+            return ("lit", 0), ("excl", f.get("end"))
+        if name == "RangeToInclusive":
+            return ("lit", 0), ("incl", f.get("end"))
+    return None, None
+
+
 def check_floor(ctx, F, cfg):
-    """template `floor`: returns True if discharged"""
+    """template `floor` on the path summaries of floor_char_boundary: returns (ok, covered) where covered maps the spans of the
+    panic-capable constructs the template accounts for to the reason"""
     fn = F.fn(FLOOR)
     if fn is None:
         return None
     key = "C13|floor"
-    A = Analysis(fn)
-    pn = {n: i for p in fn["params"] for n, i in H.pat_bindings(p)}
     ok_all = True
+    covered = {}
 
     def need(suffix, cond, msg, where=None):
         nonlocal ok_all
@@ -143,85 +159,187 @@ def check_floor(ctx, F, cfg):
         return cond
 
     if not need("params", len(fn["params"]) == 2 and fn["inputs"] == ["&str", "usize"] and fn["output"] == "usize", "signature is no longer (&str, usize) -> usize"):
-        return False
-    (sname, sid), (iname, iid) = [H.pat_bindings(p)[0] for p in fn["params"]]
-    S, I = "param:" + sname, "param:" + iname
-    LEN = "core::str::<impl str>::len(%s)" % S
-    if not need("two-sites", len(A.sites) == 2 and not A.tries, "expected exactly two result sites (clamp, search), found %d" % len(A.sites)):
-        return False
-    clamp = [s for s in A.sites if [A.comparison(c) for c in s.conds] == [(I, ">=", LEN)]]
-    search = [s for s in A.sites if [A.comparison(c) for c in s.conds] == [(I, "<", LEN)]]
-    if not need("guard", len(clamp) == 1 and len(search) == 1, "the guard is no longer `index >= s.len()`: %s" % [A.site_str(s)["when"] for s in A.sites]):
-        return False
-    need("clamp-result", A.desc(clamp[0].node) == LEN, "when index >= len the result is %s, expected s.len()" % A.desc(clamp[0].node))
-    node = H.strip(search[0].node)
-    while node.get("k") == "block":
-        if node.get("stmts"):
-            break
-        node = H.strip(node.get("expr", {}))
-    if not need("result-shape", node.get("k") == "binary" and node["op"] == "+", "the result is not `lower_bound + position`: %s" % A.desc(node)[:120]):
-        return False
-    l, r = A.subst(node["l"]), A.subst(node["r"])
-    UNW = ("core::option::Option::<T>::unwrap_unchecked", "core::option::Option::<T>::unwrap", "core::option::Option::<T>::unwrap_or",
-           "core::option::Option::<T>::unwrap_or_default", "core::option::Option::<T>::expect")
-    lower, pos = (l, r) if r.get("callee") in UNW else (r, l)
-    if not need("lower", lower.get("k") == "mcall" and lower.get("callee") == "core::num::<impl usize>::saturating_sub" and A.desc(lower["recv"]) == I and isinstance(H.lit(lower["args"][0]), int),
-                "lower bound is not index.saturating_sub(K): %s" % A.desc(lower)[:100]):
-        return False
-    K = H.lit(lower["args"][0])
-    need("window-size", K + 1 >= 4, "the search window has %d positions; a UTF-8 character can be 4 bytes long, so the boundary may lie outside the window (undefined behaviour in unwrap_unchecked)" % (K + 1), where=H.line(lower))
-    if not need("position", pos.get("k") == "mcall" and pos.get("callee") in UNW, "position is not the unwrapped search result"):
-        return False
-    srch = A.subst(pos["recv"])
-    if not need("search-last", srch.get("k") == "mcall" and srch.get("callee") == "core::iter::traits::iterator::Iterator::rposition",
-                "the search is `%s`, not rposition: the *last* boundary in the window is the floor" % srch.get("callee"), where=H.line(srch)):
-        return False
-    it = H.strip(srch["recv"])
-    win = H.strip(it["recv"]) if it.get("k") == "mcall" and it.get("method") == "iter" else {}
-    good = win.get("k") == "index" and A.desc(win["base"]) == "core::str::<impl str>::as_bytes(%s)" % S
-    idx = H.strip(win.get("idx", {})) if good else {}
-    lo_hi = None
-    if idx.get("k") == "call" and idx.get("callee") == "core::ops::range::RangeInclusive::<Idx>::new":
-        lo_hi = (A.subst(idx["args"][0]), A.subst(idx["args"][1]), True)
-    elif idx.get("k") == "struct" and idx["res"].get("path") == "core::ops::range::Range":
-        f = {x["name"]: x["e"] for x in idx["fields"]}
-        lo_hi = (A.subst(f["start"]), A.subst(f["end"]), False)
-    if not need("window", good and lo_hi is not None and lo_hi[0] is lower and A.desc(lo_hi[1]) == I and lo_hi[2] is True,
-                "the window is not s.as_bytes()[lower_bound ..= index] (inclusive of index): %s" % A.desc(win)[:140], where=H.line(win) if win else None):
-        return False
-    clos = H.strip(srch["args"][0])
-    pred_ok = False
-    if clos.get("k") == "closure" and len(clos["params"]) == 1:
-        b = H.pat_bindings(clos["params"][0])
-        body = H.strip_block(clos["body"])
-        if body.get("k") == "call" and body.get("callee") == PRED and len(b) == 1:
-            a = H.strip_block(body["args"][0])
-            pred_ok = a.get("k") == "unary" and a["op"] == "deref" and H.local_id(a["e"]) == b[0][1]
-    need("predicate-call", pred_ok, "the search predicate is not `|b| is_utf8_char_boundary(*b)`")
-    # the predicate's byte set
+        return False, covered
+    (sname, _sid), (iname, _iid) = [H.pat_bindings(p)[0] for p in fn["params"]]
+    Sx, Ix = ("param", sname), ("param", iname)
+
+    def is_len(t):
+        return t[0] == "call" and t[1] == "core::str::<impl str>::len" and t[2] == (Sx,)
+
     pf = F.fn(PRED)
-    if need("predicate-anchor", pf is not None and len(pf["params"]) == 1 and pf["inputs"] == ["u8"], "anchor missing: is_utf8_char_boundary(u8)"):
-        vid = H.pat_bindings(pf["params"][0])[0][1]
-        try:
-            acc = {b for b in range(256) if eval_formula(pf["body"], vid, b) is True}
+    sym = S.Sym(F, fn, is_effect=lambda callee, args, node, st: callee == "<index>" or (callee or "").split("::")[-1] in ("get_unchecked", "split_at", "from_raw_parts"),
+                inline=lambda path, node: path != PRED and sym.default_inline(path, node))
+    try:
+        paths = sym.run()
+    except S.TooManyPaths:
+        need("paths", False, "too many paths")
+        return False, covered
+
+    def guard_of(p):
+        """True: the path knows index < len; False: knows index >= len; None otherwise"""
+        g = None
+        for a in p.atoms:
+            if a[0] == "true" and a[1][0] == "bin":
+                op, l, r, pol = a[1][1], a[1][2], a[1][3], a[2]
+                if op == "<" and l == Ix and is_len(r):
+                    g = pol
+                elif op == "<=" and is_len(l) and r == Ix:
+                    g = not pol
+                elif op == "<=" and l == Ix and is_len(r) or op == "<" and is_len(l) and r == Ix:
+                    return "other"
+        return g
+
+    live = [p for p in paths if not (p.done and p.done[0] == "panic")]
+    ub = [p for p in paths if p.done and p.done[0] == "panic"]
+    clamp = [p for p in live if guard_of(p) is False]
+    search = [p for p in live if guard_of(p) is True]
+    extra_atoms = [a for p in paths for a in p.atoms if not (a[0] == "true" and a[1][0] == "bin" and (is_len(a[1][2]) or is_len(a[1][3])) and Ix in (a[1][2], a[1][3])) and not (a[0] in ("is", "isnot") and a[1][0] == "call" and a[1][1].endswith("::rposition"))]
+    if not need("guard", len(clamp) == 1 and len(search) == 1 and len(live) == 2 and not extra_atoms,
+                "the guard is no longer `index >= s.len()` (clamp) / `index < s.len()` (search): %s" % [[S.show_atom(a) for a in p.atoms] for p in live][:3]):
+        return False, covered
+    need("clamp-result", is_len(clamp[0].result), "when index >= len the result is %s, expected s.len()" % S.show(clamp[0].result)[:60])
+    r = search[0].result
+    if not need("result-shape", r is not None and r[0] == "bin" and r[1] == "+", "the result is not `lower_bound + position`: %s" % S.show(r)[:120]):
+        return False, covered
+    UNW_OR = (S.O + "unwrap_or", S.O + "unwrap_or_default")
+
+    def is_pos(t):
+        if t[0] == "proj" and t[2] == S.SOME and t[1][0] == "call" and t[1][1].endswith("::rposition"):
+            return t[1]
+        if t[0] == "call" and t[1] in UNW_OR and t[2] and t[2][0][0] == "call" and t[2][0][1].endswith("::rposition"):
+            return t[2][0]
+        if t[0] == "proj" and t[2] == S.SOME and t[1][0] == "call" and "Iterator::" in t[1][1]:
+            return t[1]
+        return None
+
+    l, rr = r[2], r[3]
+    lower, pos = (l, rr) if is_pos(rr) is not None else (rr, l)
+    srch = is_pos(pos)
+    if not need("position", srch is not None, "position is not the unwrapped search result: %s" % S.show(pos)[:80]):
+        return False, covered
+    if not need("lower", lower[0] == "call" and lower[1] == "core::num::<impl usize>::saturating_sub" and lower[2][0] == Ix and lower[2][1][0] == "lit" and isinstance(lower[2][1][1], int),
+                "lower bound is not index.saturating_sub(K): %s" % S.show(lower)[:100]):
+        return False, covered
+    K = lower[2][1][1]
+    need("window-size", K + 1 >= 4, "the search window has %d positions; a UTF-8 character can be 4 bytes long, so the boundary may lie outside the window (undefined behaviour in unwrap_unchecked)" % (K + 1))
+    if not need("search-last", srch[1].endswith("::rposition"),
+                "the search is `%s`, not rposition: the *last* boundary in the window is the floor" % S.short_fn(srch[1])):
+        return False, covered
+    win = srch[2][0]
+    good = win[0] == "index" and win[1] == ("call", "core::str::<impl str>::as_bytes", (Sx,), win[1][3] if len(win[1]) > 3 else None)
+    lo, hi = _range_bounds(win[2]) if good else (None, None)
+    incl = False
+    if good and hi is not None:
+        if hi[0] == "incl":
+            incl = hi[1] == Ix
+        else:
+            e = hi[1]
+            incl = e is not None and e[0] == "bin" and e[1] == "+" and {e[2], e[3]} == {Ix, ("lit", 1)}
+    if not need("window", good and lo == lower and incl, "the window is not s.as_bytes()[lower_bound ..= index] (inclusive of index): %s" % S.show(win)[:140]):
+        return False, covered
+    # the predicate: a closed formula over one byte, folded for each of the 256 byte values
+    clos = srch[2][1]
+    acc = None
+    if need("predicate-anchor", pf is not None and len(pf["params"]) == 1 and pf["inputs"] == ["u8"] and clos[0] == "closure" and clos[1] in sym.closures, "anchor missing: is_utf8_char_boundary(u8) / the search predicate is not a closure"):
+        probe = ("unk", -2, "byte")
+        body = sym.apply_closure(clos, [probe])
+        need("predicate-call", body is not None and body[0] == "call" and body[1] == PRED and body[2] == (probe,), "the search predicate is not `|b| is_utf8_char_boundary(*b)`: %s" % S.show(body)[:80])
+        acc = set()
+        bad = None
+        for b in range(256):
+            try:
+                ps = S.Sym(F, pf, param_terms={H.pat_bindings(pf["params"][0])[0][0]: ("lit", b)}).run()
+            except S.TooManyPaths:
+                ps = []
+            vals = {p.result for p in ps}
+            if len(vals) == 1 and next(iter(vals)) in (("lit", True), ("lit", False)):
+                if next(iter(vals))[1]:
+                    acc.add(b)
+            else:
+                bad = (b, [S.show(v)[:40] for v in vals])
+                break
+        if bad is not None:
+            need("predicate-formula", False, "boundary predicate is not a closed byte formula (byte 0x%02x gives %s)" % bad, where=pf["sp"])
+        else:
             must = set(range(0x00, 0x80)) | set(range(0xC2, 0xF5))
             mustnot = set(range(0x80, 0xC0))
             need("predicate-set", must <= acc and not (acc & mustnot),
                  "is_utf8_char_boundary accepts %s, rejects %s: it must accept every ASCII and lead byte and no continuation byte" %
                  (sorted("0x%02x" % b for b in acc & mustnot)[:6], sorted("0x%02x" % b for b in must - acc)[:6]), where=pf["sp"])
             ctx.sample({"cfg": cfg, "boundary_predicate_accepts": "0x00-0x7f,0xc0-0xff" if acc == set(range(0, 0x80)) | set(range(0xC0, 0x100)) else sorted(acc)[:40], "K": K})
-        except ValueError as e:
-            need("predicate-formula", False, "boundary predicate is not a closed byte formula (%s)" % e, where=pf["sp"])
+    # the panic-capable constructs the template accounts for
+    for e in search[0].effects:
+        if e.kind == "index":
+            covered[e.node.get("sp")] = "window index: lower <= index < len on this path"
+    for sp, seen in sym.arith.items():
+        for op, a, b in seen:
+            if op == "+" and {a, b} == {lower, pos}:
+                covered[sp] = "lower + position <= index < len"
+            elif op == "+" and {a, b} == {Ix, ("lit", 1)}:
+                covered[sp] = "index + 1 <= len (only evaluated when index < len)"
+    for p in ub:
+        covered[p.done[1]] = "a window of >= 4 positions ending at index < len contains a boundary"
     # obligations in floor: exactly the template's
-    obs = obligations(fn)
-    expected = {id(win): "window index", id(node): "lower + pos", id(pos): "unwrap of the search"}
-    for kind, x in obs:
+    A = Analysis(fn)
+    for kind, x in obligations(fn):
         if kind == "unsafe":
             inner = [y for y in H.walk(x) if y is not x and (y.get("unsafe_fn") or (y.get("k") == "unary" and y["op"] == "deref" and (y["e"].get("ty") or "").startswith("*")))]
-            need("unsafe-block|%d" % len(inner), all(y is pos for y in inner), "the unsafe block contains more than the unwrap_unchecked of the search result", where=H.line(x))
+            need("unsafe-block|%d" % len(inner), all(y.get("sp") in covered for y in inner), "the unsafe block contains more than the unwrap_unchecked of the search result", where=H.line(x))
+        elif kind == "arith" and x["op"] in ("-", "*") and H.lit(x["l"]) is not None or (kind == "arith" and all((H.lit(y) is not None or (H.strip(y).get("k") == "path" and (H.strip(y)["res"].get("rk") or "").startswith(("Const", "AssocConst")))) for y in (x["l"], x["r"]))):
+            continue    # arithmetic on constants: evaluated by the compiler (an overflow is a compile error)
         else:
-            need("obligation|%s" % A.desc(x)[:60], id(x) in expected, "panic-capable construct outside the template: %s" % A.desc(x)[:100], where=H.line(x))
-    return ok_all
+            need("obligation|%s" % A.desc(x)[:60], x.get("sp") in covered, "panic-capable construct outside the template: %s" % A.desc(x)[:100], where=H.line(x))
+    return ok_all, covered
+
+
+def check_truncate(ctx, F, cfg, floor_present):
+    """truncate::<L>: pushes exactly s[..floor(s, L)] into a fresh String<L> and returns it; returns (ok, covered spans)"""
+    fn = F.fn(TRUNCATE)
+    covered = {}
+    if fn is None:
+        return False, covered
+    sname = H.pat_bindings(fn["params"][0])[0][0] if fn["params"] else "s"
+    Sx = ("param", sname)
+    FLOORS = (FLOOR, "core::str::<impl str>::floor_char_boundary")
+
+    def fresh(t):
+        return t[0] == "call" and not t[2] and t[1] == "heapless::string::String::<N>::new"
+
+    sym = S.Sym(F, fn, is_effect=lambda callee, args, node, st: callee == "<index>" or (bool(args) and fresh(args[0]) and (callee or "").split("::")[-1] not in ("new", "len", "as_str")),
+                inline=lambda path, node: path not in FLOORS and sym.default_inline(path, node))
+    try:
+        paths = sym.run()
+    except S.TooManyPaths:
+        paths = []
+    live = [p for p in paths if not (p.done and p.done[0] == "panic")]
+    good = len(live) == 1 and not live[0].atoms[:-1] if live else False
+    fl_ok = push_ok = False
+    if live:
+        p = live[0]
+        pushes = [e for e in p.effects if e.kind == "call" and e.callee == "heapless::string::String::<N>::push_str"]
+        idx = [e for e in p.effects if e.kind == "index"]
+        others = [e for e in p.effects if e not in pushes and e not in idx]
+        if len(pushes) == 1 and not others:
+            arg = pushes[0].args[1]
+            lo, hi = _range_bounds(arg[2]) if arg[0] == "index" and arg[1] == Sx else (None, None)
+            cut = hi[1] if hi and hi[0] == "excl" and lo == ("lit", 0) else None
+            fl_ok = cut is not None and cut[0] == "call" and cut[1] in FLOORS and cut[2][0] == Sx and cut[2][1][0] in ("path", "const") and cut[2][1][1] == TRUNCATE + "::L"
+            bt = None
+            n = pushes[0].node
+            recv_ty = (n.get("recv_ty") or "") if isinstance(n, dict) else ""
+            push_ok = fl_ok and p.result == pushes[0].args[0] and fresh(p.result) and sym.lookup(p, pushes[0].term) == S.OK and "String<L>" in (fn.get("output") or "")
+            if push_ok:
+                for e in idx:
+                    covered[e.node.get("sp")] = "s[..floor(s, L)]: the cut is on a character boundary and <= len"
+                for q in paths:
+                    if q.done and q.done[0] == "panic":
+                        covered[q.done[1]] = "the prefix has at most L bytes: it fits the fresh String<L>"
+    ctx.oblige("C13|truncate|floor-call", fl_ok, "truncate::<L> does not cut at floor_char_boundary(s, L) with its own capacity L", cfg=cfg, where=fn["sp"])
+    ctx.oblige("C13|truncate|push-prefix", push_ok, "truncate does not push exactly s[..floor] into a fresh String<L> and return it", cfg=cfg, where=fn["sp"])
+    A = Analysis(fn)
+    for kind, x in obligations(fn):
+        ctx.oblige("C13|truncate|obligation|%s" % A.desc(x)[:60], push_ok and x.get("sp") in covered, "panic-capable construct outside the template in truncate: %s" % A.desc(x)[:100], cfg=cfg, where=H.line(x))
+    return push_ok, covered
 
 
 def wrapper_paths(F, fn, opaque=()):
@@ -452,34 +570,7 @@ def run(ctx):
         fn = F.fn(TRUNCATE)
         floor_fn = F.fn(FLOOR)
         if ctx.oblige("C13|truncate|anchor", fn is not None, "anchor missing: webauthn::truncate", cfg=cfg):
-            A = Analysis(fn)
-            calls = [x for x in H.walk(fn["body"]) if x.get("k") in ("call", "mcall") and "ctor" not in x]
-            fl = [x for x in calls if x.get("callee") in (FLOOR, "core::str::<impl str>::floor_char_boundary")]
-            good = len(fl) == 1
-            if good:
-                a = H.call_args(fl[0])
-                good = H.local_id(a[0]) in A.param_ids and H.strip(a[1]).get("k") == "path" and "ConstParam" in H.strip(a[1])["res"].get("rk", "") and H.strip(a[1])["res"].get("path") == TRUNCATE + "::L"
-            ctx.oblige("C13|truncate|floor-call", good, "truncate::<L> does not cut at floor_char_boundary(s, L) with its own capacity L", cfg=cfg, where=fn["sp"])
-            pushes = [x for x in calls if x.get("callee") == "heapless::string::String::<N>::push_str"]
-            good2 = len(pushes) == 1
-            if good2 and good:
-                p = pushes[0]
-                tgt = H.local_id(p["recv"])
-                init = A.env.get(tgt)
-                fresh = init is not None and H.strip_block(init).get("callee") == "heapless::string::String::<N>::new" and (H.strip_block(init).get("targs") or [""]) == ["L"]
-                arg = H.strip(p["args"][0])
-                sl = arg.get("k") == "index" and H.local_id(arg["base"]) in A.param_ids and (arg.get("base_ty") or "") == "&str"
-                if sl:
-                    idx = H.strip(arg["idx"])
-                    sl = idx.get("k") == "struct" and idx["res"].get("path") == "core::ops::range::RangeTo" and A.subst(idx["fields"][0]["e"]) is fl[0]
-                ret = len(A.sites) == 1 and H.local_id(A.sites[0].node) == tgt and not A.sites[0].wrappers
-                par = [x for x in calls if x.get("callee") in ("core::result::Result::<T, E>::unwrap", "core::result::Result::<T, E>::expect") and x["recv"] is p]
-                good2 = fresh and sl and ret and len(par) == 1
-            ctx.oblige("C13|truncate|push-prefix", good2, "truncate does not push exactly s[..floor] into a fresh String<L> and return it", cfg=cfg, where=fn["sp"])
-            # obligations inside truncate
-            for kind, x in obligations(fn):
-                allowed = (kind == "index" and good2 and x is H.strip(pushes[0]["args"][0])) or (kind == "call" and good2 and x.get("callee", "").endswith("::unwrap") and x["recv"] is pushes[0])
-                ctx.oblige("C13|truncate|obligation|%s" % A.desc(x)[:60], allowed, "panic-capable construct outside the template in truncate: %s" % A.desc(x)[:100], cfg=cfg, where=H.line(x))
+            check_truncate(ctx, F, cfg, floor_fn is not None)
         if ctx.tier == "thorough" and cfg == "k0":
             from .clippyxref import cross_reference
             spans = []
@@ -489,7 +580,7 @@ def run(ctx):
                     spans += [x.get("sp") for _, x in obligations(f_)] + [x.get("sp") for x in H.walk(f_["body"]) if x.get("k") == "cast"]
             cross_reference(ctx, spans, files=["src/webauthn.rs"])
         if floor_fn is not None:
-            res = check_floor(ctx, F, cfg)
+            check_floor(ctx, F, cfg)
         else:
             ctx.note("floor_char_boundary is not a crate function any more (template absent): the cut position is core's str::floor_char_boundary if truncate calls it")
             ctx.oblige("C13|floor|absent-ok", fn is not None and any(x.get("callee") == "core::str::<impl str>::floor_char_boundary" for x in H.walk(fn["body"])),
